@@ -16,7 +16,14 @@ def _extra(lines, verdicts):
         parts = ln.split("|")
         case = parts[0].split()
         obs = parts[1] if len(parts) > 1 else ""
+        if case and case[0] == "P":
+            h["prepare_cases"] = h.get("prepare_cases", 0) + 1
+            h["prepare_second_round"] = h.get("prepare_second_round", 0) + (obs.count("@") > len(case[1]))
+            h["prepare_id_mismatch"] = h.get("prepare_id_mismatch", 0) + obs.count("/e:mismatch")
+            h["prepare_all_failed"] = h.get("prepare_all_failed", 0) + obs.count("/e:allfailed")
+            continue
         if len(case) > 2:
+            h["mixed_clusters"] = h.get("mixed_clusters", 0) + (len(case[1]) > 1)
             h["ext"] += case[1] == "1"
             h["nodes"][case[2]] = h["nodes"].get(case[2], 0) + 1
         ops = _ops(ln)
@@ -57,6 +64,9 @@ def _post(lines, verdicts):
             "batch calls": (case.count(" B/"), n // 20),
             "pager calls": (case.count(" I/"), n // 100),
             "concurrent pairs": (case.count(" Y/"), n // 100),
+            "Session::prepare cases": (sum(1 for l in lines if l.startswith("P ")), n // 40),
+            "Session::prepare second rounds": (sum(1 for l in lines if l.startswith("P ") and l.split("|")[-1].count("@") > len(l.split()[1])), n // 400),
+            "mixed-extension clusters": (sum(1 for l in lines if l.startswith("H ") and len(l.split()[1]) > 1), n // 40),
             "known-finding histories": (sum(1 for v in verdicts if v and "class=stale-cached-metadata-without-ext" in v), 1),
         }
         for what, (got, want) in floors.items():
@@ -73,12 +83,12 @@ SPEC = {
     "search_n": 10000,
     "runner_timeout": 3000,
     "rule": ("one case = one seeded history against a fresh mock cluster (1-3 nodes, with/without the metadata-id "
-             "extension, 1-3 prepared statements with 2-4 schema versions each) and a real Session: 4-15 ops out of "
+             "extension, a fifth of the multi-node clusters MIXED, 1-3 prepared statements with 2-4 schema versions each) and a real Session: 4-15 ops out of "
              "execute / single-page execute / execute_iter (pager, 1-3 pages) / batch / pairs of CONCURRENT executes on two nodes (random node, use_cached_result_metadata, consistency, serial "
              "consistency, timestamp, page size, paging state) and node events {evicted, schema-changed, prepared, "
              "id-changing}; a quarter of the histories additionally force arbitrary (ill-behaved) answers. "
-             "non-trivial = the history contains at least one client call; distinct = distinct case lines"),
-    "nontrivial": lambda ln: any(t[:2] in ("X/", "B/", "I/") for t in ln.split("|")[0].split()),
+             "1/12 of the cases are Session::prepare cases (kind P: nodes at different schema versions / id salts / with forced errors before the prepare; both rounds of prepare_nongeneric recorded). non-trivial = the history contains at least one client call; distinct = distinct case lines"),
+    "nontrivial": lambda ln: ln.startswith("P ") or any(t[:2] in ("X/", "B/", "I/") for t in ln.split("|")[0].split()),
     "trusted_base": [
         "mocknode (scripted CQL v4 server, own codec) and the runner's handler implementing the specification node; "
         "the Coq specification system re-computes every answer of the handler and the acceptor rejects a history in "
